@@ -548,6 +548,8 @@ func init() {
 				}
 			}
 			out = append(out, Inst{Pkg: "knx", Fn: "HarnessC09Parked", Ctx: 2, MaxSched: 20000, Note: "no accepted telegram is lost across a reconnect"})
+			out = append(out, Inst{Pkg: "knx", Fn: "HarnessC17", Args: []int64{8, 3, 1}, Note: "no accepted telegram is lost when the overflow queue was used and drained before"},
+				Inst{Pkg: "knx", Fn: "HarnessC17", Args: []int64{8, 3, 3}})
 			return out
 		},
 		Thorough: func(l *loaded) []Inst {
@@ -565,10 +567,13 @@ func init() {
 				}
 			}
 			out = append(out, Inst{Pkg: "knx", Fn: "HarnessC09Parked", Ctx: 3, MaxSched: 20000, Note: "no accepted telegram is lost across a reconnect"})
+			for mode := int64(0); mode < 4; mode++ {
+				out = append(out, Inst{Pkg: "knx", Fn: "HarnessC17", Args: []int64{8, 4, mode}, Note: "no accepted telegram is lost when the overflow queue was used and drained before"})
+			}
 			return out
 		},
 		Covers:  []string{"C04.delivered", "C04.reack", "C04.tcp.delivered", "C04.stream.accepted", "C04.stream.repeated", "C04.stream.end"},
-		Bounds:  "one real handleTunnelReq step from an arbitrary state: expected number, connection channel, request channel and sequence number all symbolic (all 256x256x256x256 combinations, wrap included), UDP/TCP, consumer waiting or arriving arbitrarily late, socket send failing or not, all interleavings with the parked delivery goroutine; plus the real process() goroutine of a fresh epoch fed with K<=5 (thorough 7) requests of symbolic channel/sequence, reader present from the start or arriving after the burst",
+		Bounds:  "one real handleTunnelReq step from an arbitrary state: expected number, connection channel, request channel and sequence number all symbolic (all 256x256x256x256 combinations, wrap included), UDP/TCP, consumer waiting or arriving arbitrarily late, socket send failing or not, all interleavings with the parked delivery goroutine; plus the real process() goroutine of a fresh epoch fed with K<=5 (thorough 7) requests of symbolic channel/sequence, reader present from the start or arriving after the burst; bursts of 3 (thorough 4) into a tunnel whose overflow queue is in the state a long history leaves behind (empty, no spare capacity)",
 		Outside: "streams longer than K requests are covered by induction on the step only (the step harness starts from every counter value; process() carries no other state between iterations); delivery order (C17); reconnects inside one run (C09)",
 		Assume:  []string{"in-memory knxnet.Socket replaces the kernel"},
 	})
@@ -642,6 +647,9 @@ func init() {
 		for _, k := range deep {
 			out = append(out, Inst{Pkg: "knx", Fn: "HarnessC17", Args: []int64{0, k, 3}, Note: "long burst, reader resumes in the middle"})
 		}
+		for mode := int64(0); mode < 4; mode++ {
+			out = append(out, Inst{Pkg: "knx", Fn: "HarnessC17", Args: []int64{8, 3, mode}, Note: "tunnel whose overflow queue was used and drained before (empty, no spare capacity)"})
+		}
 		out = append(out, Inst{Pkg: "knx", Fn: "HarnessC17BB", Args: []int64{1, 6, 3}, Ctx: 2, Note: "long burst, router"},
 			Inst{Pkg: "knx", Fn: "HarnessC17BB", Args: []int64{5, 6, 3}, Ctx: 2, Note: "long burst, tunnel built by NewTunnel"})
 		if maxK > 3 {
@@ -656,7 +664,7 @@ func init() {
 		Quick:    func(l *loaded) []Inst { return c17(3) },
 		Thorough: func(l *loaded) []Inst { return c17(5) },
 		Covers:   []string{"C17.end"},
-		Bounds:   "tunnel client (pushInbound directly, through handleTunnelReq in UDP and TCP mode, and a client built by the real NewTunnel fed through its socket in UDP and TCP mode), router client (built by the real NewRouter, fed through its socket) and the group layer (serveGroupInbound on a plain channel, and a group tunnel built by NewGroupTunnel); bursts of 2..3 (thorough ..5; constructor-built clients from 4 on with context bound 3, the NewGroupTunnel pipeline always with context bound 2) accepted telegrams for every client and consumer behaviour, plus bursts of 6 and 7 (thorough 8) with the reader resuming in the middle for the tunnel (pushInbound; NewTunnel-built, context bound 2) and the router (context bound 2); consumer always waiting, absent for the whole burst, taking one telegram and then stalling, or resuming in the middle of the burst; every interleaving of the server side, the parked delivery goroutines and the consumer",
+		Bounds:   "tunnel client (pushInbound directly, through handleTunnelReq in UDP and TCP mode, and a client built by the real NewTunnel fed through its socket in UDP and TCP mode), router client (built by the real NewRouter, fed through its socket) and the group layer (serveGroupInbound on a plain channel, and a group tunnel built by NewGroupTunnel); bursts of 2..3 (thorough ..5; constructor-built clients from 4 on with context bound 3, the NewGroupTunnel pipeline always with context bound 2) accepted telegrams for every client and consumer behaviour, plus bursts of 6 and 7 (thorough 8) with the reader resuming in the middle for the tunnel (pushInbound; NewTunnel-built, context bound 2) and the router (context bound 2); the tunnel also from the queue state a long history leaves behind (drained by re-slicing: empty, no spare capacity); consumer always waiting, absent for the whole burst, taking one telegram and then stalling, or resuming in the middle of the burst; every interleaving of the server side, the parked delivery goroutines and the consumer",
 		Outside:  "bursts longer than 8; the runtime's FIFO order among senders that are already blocked is not modelled (any blocked sender may be served), which only adds schedules",
 		Assume:   []string{"the pinned tree reordered overflowed telegrams (per-telegram goroutines); repaired by the fix: commit recorded in known_findings.json, so all consumer behaviours are enforced now"},
 	})
